@@ -25,6 +25,13 @@ func newPoolGen(r *core.Rand, world int) *poolGen {
 	s.addr = r.Bool()
 	s.upd = r.Bool()
 	s.pb = r.Chance(1, 6)
+	s.nc = r.Chance(1, 8)
+	if s.pb && r.Chance(1, 4) {
+		s.uc = true
+	}
+	if r.Chance(1, 3) {
+		s.en = extraNonces[r.Intn(len(extraNonces))]
+	}
 	s.deriveFacts()
 	return pg
 }
@@ -195,6 +202,9 @@ func permute(s *scenario, r *core.Rand) {
 	s.txs = out
 }
 
+// extra nonces at the edges of the script-number encoding (AddInt64 of int64(uint64))
+var extraNonces = []uint64{1, 16, 17, 0x7f, 0x80, 0xff, 0x100, 0x7fff, 0x8000, 0xffffffff, 1 << 32, 1<<63 - 1, 1 << 63, 1<<64 - 1}
+
 var outKinds = []byte{'T', 'K', 'W', 'S', 'H', 'T', 'T'}
 
 func (pg *poolGen) randKinds(n int) []byte {
@@ -345,6 +355,11 @@ func (P) Generate(g *core.Gen) {
 	genMinHighEdge(g)
 	genStalePool(g)
 	genTwo(g)
+	genPar(g)
+	genManyTxs(g)
+	genSigopExact(g)
+	genMaturityEdge(g)
+	genConsensusWeight(g)
 }
 
 func genIndependent(g *core.Gen) {
@@ -907,7 +922,197 @@ func genTwo(g *core.Gen) {
 		}
 		pg.s.rev = g.R.Bool()
 		pg.s.conc = g.Thorough() && g.R.Chance(1, 3)
+		pg.s.uc = g.R.Chance(1, 4)
 		s := pg.finish(true)
+		if g.R.Chance(1, 3) { // the policy changes between the two calls
+			s.polBSet = true
+			s.polB = [4]int64{g.R.Pick(0, 2000), g.R.Pick(1500, 3000, 3996000), g.R.Pick(0, 0, 2000), g.R.Pick(0, 1000, 30000)}
+		}
 		g.Case("two-templates", len(s.txs) > 1, s.line())
+	}
+}
+
+// genPar: eight complete cases per line, run concurrently on separate chains.
+func genPar(g *core.Gen) {
+	for c := 0; c < g.N(6, 40); c++ {
+		var parts []string
+		for i := 0; i < 8; i++ {
+			pg := newPoolGen(g.R, i%2)
+			pg.s.pb = true
+			if i%4 == 3 && pg.s.seg {
+				pg.s.two = true
+				pg.randomPool(poolOpts{n: 2 + g.R.Intn(3), childProb: 30, maxFee: 50000, anyKind: true})
+				pg.s.ka = len(pg.s.txs)
+				pg.randomPool(poolOpts{n: 1 + g.R.Intn(3), childProb: 30, maxFee: 50000, anyKind: true})
+				pg.s.rev = g.R.Bool()
+			} else {
+				if g.R.Chance(1, 4) {
+					f := worldBlocks - 1 - g.R.Intn(6)
+					pg.setReorg(f, worldBlocks-f+1)
+				}
+				pg.randomPool(poolOpts{n: 2 + g.R.Intn(10), childProb: 20 + g.R.Intn(60), anomalies: g.R.Bool(),
+					maxFee: 60000, zeroFeePct: 10, anyKind: true})
+				if g.R.Chance(1, 3) {
+					pg.s.prioSize = uint32(g.R.Pick(1500, 3000, 50000))
+				}
+			}
+			s := pg.finish(true)
+			parts = append(parts, s.line()[len("C12 "):])
+		}
+		g.Case("parallel-8", true, "C12 par "+joinStrings(parts, " || "))
+	}
+}
+
+func joinStrings(xs []string, sep string) string {
+	out := ""
+	for i, x := range xs {
+		if i > 0 {
+			out += sep
+		}
+		out += x
+	}
+	return out
+}
+
+// genManyTxs: 251, 252, 253 selected transactions: the transaction-count
+// varint of the block grows from 1 to 3 bytes at 253 (coinbase included).
+func genManyTxs(g *core.Gen) {
+	for _, total := range []int{251, 252, 253} {
+		if !g.Thorough() && total == 251 && g.R.Bool() {
+			continue
+		}
+		pg := newPoolGen(g.R, 0)
+		roots := 0
+		for len(pg.s.txs) < total {
+			k := pg.pick(func(u utxo) bool { return pg.spendable(u) && u.kind == 'T' && !u.cb })
+			if k < 0 {
+				break
+			}
+			j := pg.add([]inRef{pg.ref(k)}, []byte{'T', 'T', 'T', 'T'}, g.R.Range(2000, 9000))
+			roots++
+			for i := 0; i < 4 && len(pg.s.txs) < total; i++ {
+				pg.add([]inRef{{kind: 'p', k: j, idx: i}}, []byte{'T'}, g.R.Range(0, 5000))
+			}
+		}
+		s := pg.finish(true)
+		if len(s.txs) != total {
+			continue
+		}
+		if g.R.Bool() { // and the policy maximum right at the finished block
+			run := int64(356 + s.cbw)
+			for _, t := range s.txs {
+				run += t.wt
+			}
+			s.maxW = uint32(run + g.R.Range(-1, 2))
+		}
+		g.Case("many-txs", true, s.line())
+	}
+}
+
+// genSigopExact: sigop cost 79999 / 80000 / 80001 (cost-1 steps through
+// P2WPKH inputs), with and without the coinbase's own 4.
+func genSigopExact(g *core.Gen) {
+	for c := 0; c < g.N(6, 30); c++ {
+		pg := newPoolGen(g.R, 0)
+		left := int64(80000) - pg.s.cbs
+		k := pg.pick(func(u utxo) bool { return pg.spendable(u) && u.kind == 'T' && !u.cb })
+		kinds := []byte{'T'}
+		m := int64(990 + g.R.Intn(6))
+		for x := int64(0); x < m; x++ {
+			kinds = append(kinds, 'M')
+		}
+		a := pg.add([]inRef{pg.ref(k)}, kinds, 90000)
+		pg.s.txs[a].fpk = 900000
+		left -= 80 * m
+		// second transaction: nW P2WPKH inputs (1 each) and nK P2PKH outputs (4 each)
+		delta := g.R.Range(-1, 1)
+		nW := int64(1 + g.R.Intn(4))
+		for (left+delta-nW)%4 != 0 {
+			nW++
+		}
+		nK := (left + delta - nW) / 4
+		var ins []inRef
+		for x := int64(0); x < nW; x++ {
+			kw := pg.pick(func(u utxo) bool { return pg.spendable(u) && u.kind == 'W' })
+			if kw < 0 {
+				break
+			}
+			ins = append(ins, pg.ref(kw))
+		}
+		if int64(len(ins)) != nW || nK < 0 {
+			continue
+		}
+		kk := []byte{}
+		for x := int64(0); x < nK; x++ {
+			kk = append(kk, 'K')
+		}
+		if len(kk) == 0 {
+			kk = []byte{'T'}
+		}
+		b := pg.add(ins, kk, 20000)
+		pg.s.txs[b].fpk = 5000
+		s := pg.finish(false)
+		g.Case("sigop-exact", true, s.line())
+	}
+}
+
+// genMaturityEdge: every still-unspent coinbase of the world (ages 1..4 with a
+// maturity of 3) spent by its own transaction.
+func genMaturityEdge(g *core.Gen) {
+	for c := 0; c < g.N(3, 12); c++ {
+		pg := newPoolGen(g.R, c%2)
+		if c%3 == 2 {
+			pg.setReorg(worldBlocks-1, 2+g.R.Intn(2))
+		}
+		for k, u := range pg.w.catalog {
+			if u.cb && pg.s.available(u) {
+				pg.used[k] = true
+				pg.add([]inRef{pg.ref(k)}, []byte{'T', 'T'}, g.R.Range(1000, 50000))
+			}
+		}
+		s := pg.finish(true)
+		permute(s, g.R)
+		g.Case("maturity-edge", len(s.txs) > 0, s.line())
+	}
+}
+
+// genConsensusWeight: a policy above the consensus maximum and a pool that
+// fills the block to 4 000 000 -4 / +0 / +4 weight units: the final self-check
+// is the only thing between the selection and an oversized block.
+func genConsensusWeight(g *core.Gen) {
+	for c := 0; c < g.N(3, 12); c++ {
+		pg := newPoolGen(g.R, 0)
+		pg.s.maxW = 4100000
+		pg.s.addr = false
+		n := 11
+		for i := 0; i < n; i++ {
+			k := pg.pick(func(u utxo) bool { return pg.spendable(u) && u.kind == 'T' && !u.cb })
+			t := txSpec{ins: []inRef{pg.ref(k)}, lockKind: '0', allMax: true}
+			for x := 0; x < 10; x++ {
+				t.outs = append(t.outs, outSpec{'D', 9000})
+			}
+			t.outs = append(t.outs, outSpec{'T', pg.w.catalog[k].val - 50000})
+			t.fee = 50000
+			pg.s.txs = append(pg.s.txs, t)
+		}
+		// the filler: its last D output is tuned below
+		k := pg.pick(func(u utxo) bool { return pg.spendable(u) && u.kind == 'T' && !u.cb })
+		t := txSpec{ins: []inRef{pg.ref(k)}, lockKind: '0', allMax: true, fee: 40000}
+		t.outs = []outSpec{{'T', pg.w.catalog[k].val - 40000}, {'D', 4000}}
+		pg.s.txs = append(pg.s.txs, t)
+		s := pg.finish(true)
+		total := int64(4*81) + s.cbw
+		for _, x := range s.txs {
+			total += x.wt
+		}
+		target := int64(4000000) + 4*g.R.Range(-1, 1)
+		adj := (target - total) / 4
+		last := &s.txs[len(s.txs)-1]
+		last.outs[1].amt += adj
+		if last.outs[1].amt < 300 || last.outs[1].amt > 9900 {
+			continue
+		}
+		s = pg.finish(true)
+		g.Case("consensus-weight", true, s.line())
 	}
 }
